@@ -74,6 +74,26 @@ def d1(chk, prog, ks, ploidies):
                 tb.cell(ok, dict(k=k, ploidy=P, hap=hap, naming=style or "bare", cls=c, position=j, nan=nan, got=repr(got), want=want))
     tb.done("threshold calling is not the stated step function",
             sample=dict(clause="D1", k=2, positions="<t0, =t0, (t0,t1), =t1, >t1", cn="0,0,1,1,ceil(r*2^v)"))
+    # within one process: the call of one table does not depend on the calls made before it (one interpreter, the ploidy / reference sex changing between calls)
+    tbh = Table(chk, "threshold-step", "absolute_threshold called repeatedly in one process (ploidy 2, 4, 2 with a male reference, 3, 1, 2; two thresholds): each call is the step function for its own arguments", fi.loc(), fi.qn + "::repeated calls")
+    W.reset()
+    it = Interp(prog)
+    k = 2
+    for step, (P, hap) in enumerate([(2, False), (4, False), (2, True), (3, False), (1, False), (2, False)]):
+        thr = [OrderVal(f"t{i}", 10 * i, None) for i in range(k)]
+        reps = [10 * (j // 2) - 5 if j % 2 == 0 else 10 * (j // 2) for j in range(2 * k + 1)]
+        classes = [(c, j, False) for c in ("auto", "x", "y") for j in range(2 * k + 1)] + [(c, 0, True) for c in ("auto", "x", "y")]
+        rows = [{"chromosome": chrom(c, "chr"), "log2": OrderVal(f"v{c}{j}{'n' if nan else ''}", reps[j], None, nan=nan)} for c, j, nan in classes]
+        g = make_ga("CopyNumArray", rows, {"_classes": [c for c, _, _ in classes]}, index="any")
+        out = tbh.guard(lambda: it.run(THR, [g, P, thr, hap]), f"call {step + 1}: P={P} hap={hap}")
+        if out is None or not isinstance(out, Vec) or len(out.v) != len(classes):
+            continue
+        for (c, j, nan), row, got in zip(classes, rows, out.v):
+            r = ref_exp_oracle(c, P, hap, True, None)[0]
+            want = thr_oracle(j, k, r, P, nan)
+            ok = same(got, f_trunc(f_ceil(t_mul(T(r), f_exp2(row["log2"].sym))))) if want == "ceil" else same(got, want)
+            tbh.cell(ok, dict(call=step + 1, ploidy=P, hap=hap, cls=c, position=j, nan=nan, got=repr(got), want=want))
+    tbh.done("a threshold call depends on the calls made before it in the same process (state kept between calls)")
     # default thresholds
     dc = prog.fn("cnvlib.call.do_call")
     a = dc.node.args
